@@ -37,6 +37,10 @@ func NewTableConfig(spoolDir, badMetricsMaxAge string, vLegacy validate.LevelLeg
 	if err != nil {
 		return TableConfig{}, fmt.Errorf("could not parse badMetrics max age: %s", err.Error())
 	}
+	// the bad metrics are cleaned up every maxAge/10, which must be a valid ticker interval
+	if maxAge/10 <= 0 {
+		return TableConfig{}, fmt.Errorf("badMetrics max age must be at least 10ns, got %s", badMetricsMaxAge)
+	}
 
 	return TableConfig{
 		spoolDir,
